@@ -115,6 +115,25 @@ def gen_step(rng, b, cfg, data_files, cats, views, words, tier):
     cwd = '.'
     env = {}
     cfg_arg = [cfg]
+    if loc == 'arg':
+        # the same directory, spelled the ways a shell user spells it (tab completion adds the slash; from inside it is ".")
+        sp = rng.choice(['plain', 'plain', 'plain', 'slash', 'dotslash', 'slashdot', 'abs', 'abs-slash', 'inside', 'up-from-data'])
+        if sp == 'slash':
+            cfg_arg = [cfg + '/']
+        elif sp == 'dotslash':
+            cfg_arg = ['./' + cfg]
+        elif sp == 'slashdot':
+            cfg_arg = [cfg + '/.']
+        elif sp == 'abs':
+            cfg_arg = ['<ROOT>/' + cfg]
+        elif sp == 'abs-slash':
+            cfg_arg = ['<ROOT>/' + cfg + '//']
+        elif sp == 'inside':
+            cwd = cfg
+            cfg_arg = ['.']
+        elif sp == 'up-from-data':
+            cwd = base + 'data'
+            cfg_arg = ['../config']
     if loc == 'cwd':
         cfg_arg = []
     elif loc == 'env':
@@ -449,7 +468,8 @@ def execute(sched, scratch, seed=None, i=None):
             env = {k: v.replace('<ROOT>', os.path.realpath(root)) for k, v in (step.get('env') or {}).items()}
             plan = {'tty': dict(step['tty'], answers=list(step['tty'].get('answers') or [])), 'net': 'down',
                     'today': '2025-06-15', 'env': env, 'fault': step.get('fault'), 'reads': step.get('reads')}
-            r = proc.run_cli(root, step['argv'], plan, cwd=step['cwd'], ctl_parent=ctlp)
+            argv = [a.replace('<ROOT>', os.path.realpath(root)) for a in step['argv']]
+            r = proc.run_cli(root, argv, plan, cwd=step['cwd'], ctl_parent=ctlp)
             post = util.snapshot(root)
             badaudit = util.audit(pre, post, r.events)
             if badaudit:
